@@ -192,3 +192,45 @@ Example C05_trailers_nonvacuous :
    | None => False
    end).
 Proof. exact forwarding_trailers_refuted. Qed.
+
+(* ---------------------------------------------------------------------------------------- *)
+(* the code since /repo c9df24c: the transfer-encoding header of an EMPTY collected body is   *)
+(* dropped before the request is signed (Headers.proxy_forward_c9, Canon.hyper_wire)          *)
+(* ---------------------------------------------------------------------------------------- *)
+From GPA Require Import HeadersWireProofs.
+
+Theorem C05_c9_exactly_one_claims :
+  forall (mac : bytes -> bytes -> bytes) (a : audit) (now : bytes) (kv kg : option bytes)
+         (c : client_request) (out : request),
+  proxy_forward_c9 mac a now kv kg c = Forwarded out ->
+  hm_get_all claims_header (r_headers out) = [claims_text (run_as_elevated a)].
+Proof. exact c9_exactly_one_claims. Qed.
+Print Assumptions C05_c9_exactly_one_claims.
+
+Theorem C05_c9_exactly_one_date :
+  forall (mac : bytes -> bytes -> bytes) (a : audit) (now : bytes) (kv kg : option bytes)
+         (c : client_request) (out : request),
+  proxy_forward_c9 mac a now kv kg c = Forwarded out ->
+  hm_get_all date_header (r_headers out) = [now].
+Proof. exact c9_exactly_one_date. Qed.
+Print Assumptions C05_c9_exactly_one_date.
+
+(* exactly one authorization value on a signed request, computed over the head as it is sent:
+   required headers in place, no transfer-encoding header when the body is empty *)
+Theorem C05_c9_auth_replaced_when_signed :
+  forall (mac : bytes -> bytes -> bytes) (a : audit) (now : bytes) (kv kg : option bytes)
+         (c : client_request) (out : request),
+  proxy_forward_c9 mac a now kv kg c = Forwarded out ->
+  is_signed kv kg c = true ->
+  exists key guid sig,
+    kv = Some key /\ kg = Some guid /\
+    compute_signature mac key (as_sig_input (c_method c) (c_body c) (wire_head a now c) (c_uri c)) = Some sig /\
+    hm_get_all auth_header (r_headers out) = [auth_value guid sig].
+Proof. exact c9_auth_replaced_when_signed. Qed.
+Print Assumptions C05_c9_auth_replaced_when_signed.
+
+Theorem C05_c9_empty_body_signs_no_transfer_encoding :
+  forall (a : audit) (now : bytes) (c : client_request),
+  c_body c = [] -> hm_get_all te (wire_head a now c) = [].
+Proof. exact c9_empty_body_signs_no_te. Qed.
+Print Assumptions C05_c9_empty_body_signs_no_transfer_encoding.
